@@ -386,7 +386,7 @@ pub fn rx_float_range(
             if right == 0.0 {
                 let r = format!("-{}", rx_float_range(Some(0.0), None, false, false)?);
                 if right_inclusive {
-                    Ok(mk_or(vec![r, "0".to_string()]))
+                    Ok(mk_or(vec![r, "0(\\.0+)?".to_string()]))
                 } else {
                     Ok(r)
                 }
